@@ -181,6 +181,27 @@ func forgeAlphabet(cfg histCfg, w *World) []histAnswer {
 		b, _ := padTo(m)
 		return append(b, 0x01, 0x02, 0x03)
 	})
+	// pad length 16 (tolerated by the library when its 16 bytes are right): each
+	// single pad byte wrong. The message is extended so that 16 pad bytes + the
+	// length byte end on a block boundary.
+	for i := 0; i < 16; i++ {
+		i := i
+		a = append(a, forgeAns(fmt.Sprintf("forged/bad-pad/pad16-byte%d-wrong", i), false, func(t *env.Transport, rx *ref.Rx, s *ref.Session) []byte {
+			body := forgedBody(rx)
+			msg := ref.ResponseTo(rx.Msg, 0, body)
+			for len(msg)%16 != 15 {
+				body = append(body, 0x00)
+				msg = ref.ResponseTo(rx.Msg, 0, body)
+			}
+			padded := append([]byte{}, msg...)
+			for k := 1; k <= 16; k++ {
+				padded = append(padded, byte(k))
+			}
+			padded = append(padded, 16)
+			padded[len(msg)+i] ^= 0x20
+			return wrap(s, true, true, s.HS.SIDM, ref.AESEncryptRaw(s.K2, s.NextIV(), padded), s.Integ)
+		}))
+	}
 	// authentic datagram damaged in transit: every single bit, every truncation
 	_ = honestMsg
 	for off := 0; off < cfg.FlipLen; off++ {
@@ -242,6 +263,9 @@ func c04Judge(cfg histCfg, o *histObs) []finding {
 			tag := last.ReturnedTag
 			if strings.HasPrefix(tag, "forged/") {
 				add("completed-on-forged-datagram/"+strings.Split(strings.TrimPrefix(tag, "forged/"), ":")[0], "%s completed successfully on the datagram %q (answers %v)", op.Name, tag, r.Answers)
+			}
+			if strings.HasPrefix(tag, "cut/") {
+				add("completed-on-truncated-datagram", "%s completed on the authentic reply truncated to %s bytes: whatever remains of it, the AuthCode at its end is not complete", op.Name, strings.TrimPrefix(strings.Split(tag, ":")[0], "cut/"))
 			}
 			if strings.HasPrefix(tag, "flip/5.6") {
 				add("completed-on-forged-datagram/authenticated-flag-bit-cleared", "%s completed on the authentic reply with only the authenticated flag bit cleared (signature no longer checked)", op.Name)
